@@ -88,4 +88,6 @@ int ir_eh_match(int thrown, int caught){
   if (caught == 0 || thrown == caught) return 1;
   return vr_derives(vr_exc_name(thrown), vr_exc_name(caught), 0);
 }
-void vr_throw(int id){ exc_pending = 1; exc_type = id; exc_obj = (char*)vr_exc_alloc(16); }
+char* vr_exc_vtable[4] = {0, 0, VR_FN_WHAT, 0};
+char* vr_model_icall_pp(char* fn, char* a0){ (void)a0; if (fn == VR_FN_WHAT) return (char*)"exception"; vr_bad_icall(); return 0; }
+void vr_throw(int id){ exc_pending = 1; exc_type = id; exc_obj = (char*)vr_exc_alloc(16); *(char***)exc_obj = vr_exc_vtable; }
